@@ -279,7 +279,7 @@ fn auc_t<T: RealNumber>(c: &mut Case) {
     };
     let mut yt: Vec<f64> = (0..n).map(|i| if i < npos { 1.0 } else { 0.0 }).collect();
     c.rng.shuffle(&mut yt);
-    let kind = *c.rng.pick(&["continuous", "continuous", "informative", "few-values", "few-values", "constant", "rounded", "integers", "separating", "anti-separating", "signed-zero", "sorted-input", "sort-killer"]);
+    let kind = *c.rng.pick(&["continuous", "continuous", "informative", "few-values", "few-values", "constant", "rounded", "integers", "separating", "anti-separating", "signed-zero", "sorted-input", "sort-killer", "underflowed"]);
     let sc = *c.rng.pick(&[1.0, 1.0, 1e-6, 1e6, -1.0]);
     let mut ys: Vec<f64> = match kind {
         "continuous" => (0..n).map(|_| c.rng.f() * sc).collect(),
@@ -299,6 +299,20 @@ fn auc_t<T: RealNumber>(c: &mut Case) {
                 .collect()
         }
         "sort-killer" => scverif::gen::sort_killer(n, c.rng.bool(0.5)).iter().map(|v| v * sc).collect(),
+        // scores that have underflowed: zero, subnormal and the smallest normal numbers of the width (distinct values
+        // that differ by less than the smallest normal number)
+        "underflowed" => {
+            let (tiny, step) = if width::<T>() == "f32" { (1.1754944e-38f64, 1.4012985e-45f64) } else { (2.2250738585072014e-308f64, 5e-324f64) };
+            (0..n)
+                .map(|_| match c.rng.below(5) {
+                    0 => 0.0,
+                    1 => step * c.rng.int(1, 40) as f64,
+                    2 => tiny * c.rng.uni(0.0, 1.0),
+                    3 => tiny * c.rng.uni(1.0, 4.0),
+                    _ => -step * c.rng.int(0, 10) as f64,
+                })
+                .collect()
+        }
         "constant" => {
             let v = *c.rng.pick(&[0.0, 0.5, 1.0, -3.25, 1e9]);
             vec![v; n]
